@@ -259,7 +259,7 @@ impl Prop for C16 {
     }
 
     fn n_indices(&self, tier: Tier) -> u64 {
-        5000 * tier.scale()
+        10000 * tier.scale()
     }
 
     fn run_index(&self, idx: u64, seed: u64, _tier: Tier, rt: &mut Rt) -> Vec<Violation> {
